@@ -63,6 +63,8 @@ type VC struct {
 	failed   error
 	loopOrd  int
 	excl     map[string]exclusion
+	replayFn    *FuncInfo
+	replayLemma *Lemma
 }
 
 type exclusion struct {
